@@ -61,6 +61,30 @@ func strnumStrings(thorough bool) []string {
 	return all
 }
 
+// White space boundary set (single insertion at every position, both tiers): every
+// StrWhiteSpaceChar of 9.3.1 (WhiteSpace 7.2 incl. Zs of Unicode 3.0, LineTerminator
+// 7.3) and the near misses that must NOT be trimmed or skipped.
+var strnumWhite = []rune{0x0009, 0x000B, 0x000C, 0x0020, 0x00A0, 0xFEFF, 0x1680, 0x180E, 0x2000, 0x2001, 0x2002, 0x2003, 0x2004, 0x2005,
+	0x2006, 0x2007, 0x2008, 0x2009, 0x200A, 0x202F, 0x205F, 0x3000, 0x000A, 0x000D, 0x2028, 0x2029}
+var strnumNearMiss = []rune{0x0085, 0x200B, 0x200C, 0x200D, 0x2060, 0x001C, 0x001D, 0x001E, 0x001F, 0x0008, 0x00AD, 0xFFFE, 0x0000, 0x180F, 0x2027, 0x202A, 0x303F}
+
+func strnumWhiteStrings(have map[string]bool) []string {
+	var out []string
+	for _, b := range strnumBases {
+		rs := []rune(b)
+		for p := 0; p <= len(rs); p++ {
+			for _, c := range append(append([]rune{}, strnumWhite...), strnumNearMiss...) {
+				m := string(rs[:p]) + string(c) + string(rs[p:])
+				if !have[m] {
+					have[m] = true
+					out = append(out, m)
+				}
+			}
+		}
+	}
+	return out
+}
+
 type strnumCtx struct {
 	name string
 	src  string
@@ -100,24 +124,60 @@ func runStrNum(r *engine.Run) {
 	} else {
 		r.Bound("insertions", "up to 2, each from 8 characters (+ - space _ . e x 0)")
 	}
+	type item struct {
+		s     string
+		units bool // held as UTF-16 units (String.fromCharCode) instead of a Go string
+	}
+	var items []item
+	have := map[string]bool{}
 	for _, s := range strs {
+		have[s] = true
+		items = append(items, item{s, false})
+	}
+	white := strnumWhiteStrings(have)
+	r.Bound("white_space_strings", strconv.Itoa(len(white))+" (x 2 internal representations)")
+	for _, s := range white {
+		items = append(items, item{s, false}, item{s, true})
+	}
+	for _, it := range items {
+		s := it.s
 		if r.Expired() {
 			r.Cap("time budget reached in strnum")
 			return
 		}
 		sm := conv.Str(s)
 		var real otto.Value
-		made := false
+		made := -1
+		suffix := ""
+		if it.units {
+			suffix = "#units"
+		}
 		for ci := range strnumContexts {
 			cx := &strnumContexts[ci]
-			key := cx.name + "|" + strconv.QuoteToASCII(s)
+			key := cx.name + "|" + strconv.QuoteToASCII(s) + suffix
 			if !r.MineKey(key) {
 				continue
 			}
 			r.Tree(1, 1)
-			if !made {
-				real, _ = h.vm.ToValue(s)
-				made = true
+			if made != h.rebuilds {
+				if it.units {
+					parts := ""
+					for i, c := range conv.Units(s) {
+						if i > 0 {
+							parts += ","
+						}
+						parts += strconv.Itoa(int(c))
+					}
+					res, err := h.vm.Run("String.fromCharCode(" + parts + ")")
+					if err != nil {
+						r.HarnessError("cannot build units string: " + err.Error())
+						return
+					}
+					real = res
+				} else {
+					real, _ = h.vm.ToValue(s)
+				}
+				made = h.rebuilds
 			}
 			eval := func(q conv.Quirks) string {
 				c := &conv.Ctx{Q: q}
@@ -140,7 +200,7 @@ func runStrNum(r *engine.Run) {
 			}
 			r.End()
 			r.Eval(true)
-			report(r, h, key, fmt.Sprintf("%s with s = %s", cx.name, strconv.QuoteToASCII(s)), exp, obs, eval)
+			report(r, h, key, fmt.Sprintf("%s with s = %s%s", cx.name, strconv.QuoteToASCII(s), suffix), exp, obs, eval)
 		}
 	}
 }
